@@ -13,7 +13,7 @@ sys.path.insert(0, os.path.join(os.path.dirname(os.path.abspath(__file__)), ".."
 import rsx
 
 N = "routee-compass-core/src/model/network/"
-OBLIGATIONS = ["edge_row", "get_edge", "get_vertex", "src_vertex_id", "dst_vertex_id", "edge_triplet", "out_edges_iter", "in_edges_iter"]
+OBLIGATIONS = ["edge_row", "get_edge", "get_vertex", "src_vertex_id", "dst_vertex_id", "edge_triplet", "out_edges_iter", "in_edges_iter", "lemma_all_rows_out", "lemma_all_rows_in"]
 MUST_FAIL = ["vacuity_probe"]
 
 HEAD = """#![allow(unused_imports, unused_variables, dead_code, unused_mut, unused_parens, unused_assignments)]
@@ -56,6 +56,68 @@ pub open spec fn adj_rev_agree(adj: Seq<AdjMap>, rev: Seq<AdjMap>) -> bool {
 }
 """
 
+ROWS = """
+/// the adjacency lists after the rows es[0..n) have been processed one after the other, each as the row callback's contract says
+pub open spec fn row_step(adjs: Seq<Seq<AdjMap>>, revs: Seq<Seq<AdjMap>>, es: Seq<Edge>, i: int) -> bool {
+    exists|m0: Set<VertexId>, m1: Set<VertexId>| #[trigger] row_post(adjs[i], adjs[i + 1], revs[i], revs[i + 1], m0, m1, es[i])
+}
+pub open spec fn rows_ok(adjs: Seq<Seq<AdjMap>>, revs: Seq<Seq<AdjMap>>, es: Seq<Edge>, n_v: int) -> bool {
+    &&& adjs.len() == es.len() + 1 && revs.len() == es.len() + 1
+    &&& adjs[0].len() == n_v && revs[0].len() == n_v
+    &&& (forall|v: int| 0 <= v < n_v ==> (#[trigger] adjs[0][v])@ == Map::<EdgeId, VertexId>::empty() && revs[0][v]@ == Map::<EdgeId, VertexId>::empty())
+    &&& forall|i: int| 0 <= i < es.len() ==> #[trigger] row_step(adjs, revs, es, i)
+}
+/// C15: after all rows, the out-list of a vertex holds exactly the listed edges that LEAVE it, each with its listed destination
+pub proof fn lemma_all_rows_out(adjs: Seq<Seq<AdjMap>>, revs: Seq<Seq<AdjMap>>, es: Seq<Edge>, n_v: int, n: int, v: int, e: EdgeId)
+    requires rows_ok(adjs, revs, es, n_v), 0 <= n <= es.len(), 0 <= v < n_v
+    ensures adjs[n].len() == n_v,
+            adjs[n][v]@.contains_key(e) <==> exists|i: int| 0 <= i < n && #[trigger] es[i].edge_id == e && es[i].src_vertex_id.0 == v,
+    decreases n
+{
+    if n > 0 {
+        lemma_all_rows_out(adjs, revs, es, n_v, n - 1, v, e);
+        assert(row_step(adjs, revs, es, n - 1));
+        let (m0, m1) = choose|m0: Set<VertexId>, m1: Set<VertexId>| #[trigger] row_post(adjs[n - 1], adjs[n], revs[n - 1], revs[n], m0, m1, es[n - 1]);
+        let r = es[n - 1];
+        assert(adjs[n - 1].len() == n_v && adjs[n].len() == n_v);
+        if r.src_vertex_id.0 as int == v { assert(adjs[n][v]@ == adjs[n - 1][v]@.insert(r.edge_id, r.dst_vertex_id)); } else { assert(adjs[n][v]@ == adjs[n - 1][v]@); }
+        if adjs[n][v]@.contains_key(e) {
+            if r.src_vertex_id.0 == v && r.edge_id == e { assert(es[n - 1].edge_id == e); }
+            else { assert(adjs[n - 1][v]@.contains_key(e)); let i = choose|i: int| 0 <= i < n - 1 && #[trigger] es[i].edge_id == e && es[i].src_vertex_id.0 == v; assert(es[i].edge_id == e); }
+        }
+        if exists|i: int| 0 <= i < n && #[trigger] es[i].edge_id == e && es[i].src_vertex_id.0 == v {
+            let i = choose|i: int| 0 <= i < n && #[trigger] es[i].edge_id == e && es[i].src_vertex_id.0 == v;
+            if i < n - 1 { assert(adjs[n - 1][v]@.contains_key(e)); }
+        }
+    }
+}
+/// C15: ... and the in-list exactly the listed edges that ENTER it
+pub proof fn lemma_all_rows_in(adjs: Seq<Seq<AdjMap>>, revs: Seq<Seq<AdjMap>>, es: Seq<Edge>, n_v: int, n: int, v: int, e: EdgeId)
+    requires rows_ok(adjs, revs, es, n_v), 0 <= n <= es.len(), 0 <= v < n_v
+    ensures revs[n].len() == n_v,
+            revs[n][v]@.contains_key(e) <==> exists|i: int| 0 <= i < n && #[trigger] es[i].edge_id == e && es[i].dst_vertex_id.0 == v,
+    decreases n
+{
+    assert(adjs[0][v]@ == Map::<EdgeId, VertexId>::empty());   // (instantiates the clause of rows_ok about the empty start)
+    if n > 0 {
+        lemma_all_rows_in(adjs, revs, es, n_v, n - 1, v, e);
+        assert(row_step(adjs, revs, es, n - 1));
+        let (m0, m1) = choose|m0: Set<VertexId>, m1: Set<VertexId>| #[trigger] row_post(adjs[n - 1], adjs[n], revs[n - 1], revs[n], m0, m1, es[n - 1]);
+        let r = es[n - 1];
+        assert(revs[n - 1].len() == n_v && revs[n].len() == n_v);
+        if r.dst_vertex_id.0 as int == v { assert(revs[n][v]@ == revs[n - 1][v]@.insert(r.edge_id, r.src_vertex_id)); } else { assert(revs[n][v]@ == revs[n - 1][v]@); }
+        if revs[n][v]@.contains_key(e) {
+            if r.dst_vertex_id.0 == v && r.edge_id == e { assert(es[n - 1].edge_id == e); }
+            else { assert(revs[n - 1][v]@.contains_key(e)); let i = choose|i: int| 0 <= i < n - 1 && #[trigger] es[i].edge_id == e && es[i].dst_vertex_id.0 == v; assert(es[i].edge_id == e); }
+        }
+        if exists|i: int| 0 <= i < n && #[trigger] es[i].edge_id == e && es[i].dst_vertex_id.0 == v {
+            let i = choose|i: int| 0 <= i < n && #[trigger] es[i].edge_id == e && es[i].dst_vertex_id.0 == v;
+            if i < n - 1 { assert(revs[n - 1][v]@.contains_key(e)); }
+        }
+    }
+}
+"""
+
 GRAPH = """
 pub struct Graph { pub adj: Box<[AdjMap]>, pub rev: Box<[AdjMap]>, pub edges: Box<[Edge]>, pub vertices: Box<[Vertex]> }
 // rule R3-dyn: `Box<dyn Iterator<Item = &'a EdgeId> + 'a>` is represented by an opaque iterator with a ghost sequence of the ids it will yield
@@ -95,6 +157,7 @@ def build(x):
                "    requires vstd::std_specs::hash::obeys_key_model::<VertexId>(),\n"
                "    ensures row_post(old(adj)@, final(adj)@, old(rev)@, final(rev)@, old(missing_vertices)@, final(missing_vertices)@, *edge),\n" + body2 + "\n")
     parts.append(fn_text)
+    parts.append(ROWS)
     # ---- Graph lookups ----
     parts.append(GRAPH)
     gf = []
